@@ -173,4 +173,7 @@ def untranslated : List String := []
 /-- names of the translated definitions -/
 def translated : List String := ["updatePool_guard_1(height,pool_LastHeightDistrRewards)", "updatePool_guard_2(read_len_rules)", "updatePool_cond_3(height,pool_LastHeightDistrRewards,pool_TotalLptLocked)", "updatePool_blockInterval_1(height,pool_LastHeightDistrRewards)", "updatePool_rewardCollected_1(rules_i_RewardPerBlock,blockInterval)", "updatePool_guard_4(rules_i_RemainingReward,rewardCollected)", "updatePool_newRewardPerShare_1(rewardCollected,pool_TotalLptLocked)", "updatePool_rules_i_RewardPerShare_1(rules_i_RewardPerShare,newRewardPerShare)", "updatePool_rules_i_RemainingReward_1(rules_i_RemainingReward,rewardCollected)", "updatePool_cond_5(read_rewardTotal_IsAllPositive)", "updatePool_cond_6(isDestroy)", "updatePool_cond_7(pool_StartHeight,pool_EndHeight)", "AdjustPool_guard_1(pool_Editable)", "AdjustPool_guard_2(read_creator_String,pool_Creator)", "AdjustPool_guard_3(read_k_Expired_ctx_pool)", "AdjustPool_startHeight_1(pool_StartHeight)", "AdjustPool_cond_4(read_pool_Started_ctx)", "AdjustPool_startHeight_2(read_ctx_BlockHeight)", "AdjustPool_call_updatePool_1_arg2()", "AdjustPool_call_updatePool_1_arg3()", "AdjustPool_rules_i_TotalReward_1(rules_i_TotalReward,read_reward_AmountOf_rules_i_Reward)", "AdjustPool_rules_i_RemainingReward_1(rules_i_RemainingReward,read_reward_AmountOf_rules_i_Reward)", "AdjustPool_cond_5(read_pool_Started_ctx)", "AdjustPool_remainingHeight_1(pool_EndHeight,startHeight)", "AdjustPool_call_UpdateWith_1_arg0(rewardPerBlock)", "AdjustPool_call_SetRewardRules_1_arg1(pool_Id)", "AdjustPool_availableHeight_1()", "AdjustPool_inteval_1(read_availableReward_AmountOf_r_Reward,r_RewardPerBlock)", "AdjustPool_cond_6(availableHeight,inteval)", "AdjustPool_availableHeight_2(inteval)", "AdjustPool_expiredHeight_1(startHeight,availableHeight)", "AdjustPool_cond_7(expiredHeight,pool_EndHeight)", "AdjustPool_call_DequeueActivePool_1_arg1(pool_Id)", "AdjustPool_call_DequeueActivePool_1_arg2(pool_EndHeight)", "AdjustPool_pool_EndHeight_1(expiredHeight)", "AdjustPool_call_EnqueueActivePool_1_arg1(pool_Id)", "AdjustPool_call_EnqueueActivePool_1_arg2(pool_EndHeight)", "CaclRewards_cond_1(farmInfo_Locked)", "CaclRewards_pendingRewardTotal_1(r_RewardPerShare,farmInfo_Locked)", "CaclRewards_pendingReward_1(pendingRewardTotal,read_farmInfo_RewardDebt_AmountOf_r_Reward)", "CaclRewards_locked_1(farmInfo_Locked,deltaAmt)", "CaclRewards_debt_1(r_Reward,r_RewardPerShare,locked)"]
 
+/-- every rejecting guard of the translated functions, in source order -/
+def guards : List String := ["updatePool: height < pool.LastHeightDistrRewards", "updatePool: len(rules) == 0", "updatePool: rules[i].RemainingReward.LT(rewardCollected)", "updatePool: err := k.bk.SendCoinsFromModuleToModule(ctx, types.ModuleName, types.RewardCollector, rewardTotal); err != nil", "AdjustPool: !exist", "AdjustPool: !pool.Editable", "AdjustPool: creator.String() != pool.Creator", "AdjustPool: k.Expired(ctx, pool)", "AdjustPool: rewardPerBlock != nil && !rewardPerBlock.DenomsSubsetOf(rules.RewardsPerBlock())", "AdjustPool: reward != nil && !rules.Contains(reward)", "AdjustPool: pool, _, err = k.updatePool(ctx, pool, math.ZeroInt(), false); err != nil", "AdjustPool: err := k.bk.SendCoinsFromAccountToModule(ctx, creator, types.ModuleName, reward); err != nil", "Keeper.Stake: !exist", "Keeper.Stake: pool.StartHeight > ctx.BlockHeight()", "Keeper.Stake: k.Expired(ctx, pool)", "Keeper.Stake: lpToken.Denom != pool.TotalLptLocked.Denom", "Keeper.Stake: err := k.bk.SendCoinsFromAccountToModule(ctx, sender, types.ModuleName, sdk.NewCoins(lpToken)); err != nil", "Keeper.Stake: pool, _, err = k.updatePool(ctx, pool, lpToken.Amount, false); err != nil", "Keeper.Stake: err = k.bk.SendCoinsFromModuleToAccount(ctx, types.RewardCollector, sender, rewards); err != nil", "Keeper.Unstake: !exist", "Keeper.Unstake: lpToken.Denom != pool.TotalLptLocked.Denom", "Keeper.Unstake: !exist", "Keeper.Unstake: farmInfo.Locked.LT(lpToken.Amount)", "Keeper.Unstake: pool.TotalLptLocked.Amount.LT(lpToken.Amount)", "Keeper.Unstake: pool, _, err = k.updatePool(ctx, pool, lpToken.Amount.Neg(), false); err != nil", "Keeper.Unstake: err = k.bk.SendCoinsFromModuleToAccount(ctx, types.ModuleName, sender, sdk.NewCoins(lpToken)); err != nil", "Keeper.Unstake: err = k.bk.SendCoinsFromModuleToAccount(ctx, types.RewardCollector, sender, rewards); err != nil", "Keeper.Harvest: !exist", "Keeper.Harvest: k.Expired(ctx, pool)", "Keeper.Harvest: !exist", "Keeper.Harvest: pool, _, err := k.updatePool(ctx, pool, amtAdded, false); err != nil", "Keeper.Harvest: err = k.bk.SendCoinsFromModuleToAccount(ctx, types.RewardCollector, sender, rewards); err != nil", "Keeper.Refund: pool, _, err := k.updatePool(ctx, pool, math.ZeroInt(), true); err != nil", "Keeper.Refund: creator, err := sdk.AccAddressFromBech32(pool.Creator); err != nil", "Keeper.Refund: !refundTotal.IsAllPositive()", "Keeper.Refund: distrModuleAddr.Equals(creator)", "Keeper.Refund: err := k.bk.SendCoinsFromModuleToAccount(ctx, types.ModuleName, creator, refundTotal); err != nil", "Keeper.CreatePool: err := k.DeductPoolCreationFee(ctx, creator); err != nil", "Keeper.CreatePool: err := k.bk.SendCoinsFromAccountToModule(ctx, creator, types.ModuleName, totalReward); err != nil", "Keeper.DestroyPool: !exist", "Keeper.DestroyPool: creator.String() != pool.Creator", "Keeper.DestroyPool: !pool.Editable", "Keeper.DestroyPool: k.Expired(ctx, pool)", "Keeper.createPool: endHeight, err := pool.ExpiredHeight(); err != nil", "msgServer.CreatePool: creator, err := sdk.AccAddressFromBech32(msg.Creator); err != nil", "msgServer.CreatePool: ctx.BlockHeight() > msg.StartHeight", "msgServer.CreatePool: maxRewardCategories := m.k.MaxRewardCategories(ctx); uint32( len(msg.TotalReward), ) > maxRewardCategories", "msgServer.CreatePool: err := m.k.ck.ValidatePool(ctx, msg.LptDenom); err != nil", "msgServer.CreatePool: pool, err := m.k.CreatePool( ctx, msg.Description, msg.LptDenom, msg.StartHeight, msg.RewardPerBlock.Sort(), msg.TotalReward.Sort(), msg.Editable, creator, ); err != nil", "msgServer.CreatePoolWithCommunityPool: proposer, err := sdk.AccAddressFromBech32(msg.Proposer); err != nil", "msgServer.CreatePoolWithCommunityPool: uint32(len(totalReward)) > maxRewardCategories", "msgServer.CreatePoolWithCommunityPool: err := m.k.ck.ValidatePool(ctx, msg.Content.LptDenom); err != nil", "msgServer.CreatePoolWithCommunityPool: err := m.k.bk.SendCoinsFromAccountToModule(ctx, proposer, types.EscrowCollector, msg.Content.FundSelfBond); err != nil", "msgServer.CreatePoolWithCommunityPool: err := m.k.escrowFromFeePool(ctx, msg.Content.FundApplied); err != nil", "msgServer.CreatePoolWithCommunityPool: data, err := codectypes.NewAnyWithValue(&msg.Content); err != nil", "msgServer.CreatePoolWithCommunityPool: proposal, err := m.k.gk.SubmitProposal( ctx, msgs, \"\", msg.Content.Title, msg.Content.Description, proposer, false, ); err != nil", "msgServer.CreatePoolWithCommunityPool: _, err = m.k.gk.AddDeposit(ctx, proposal.Id, proposer, msg.InitialDeposit); err != nil", "msgServer.DestroyPool: creator, err := sdk.AccAddressFromBech32(msg.Creator); err != nil", "msgServer.DestroyPool: refundCoin, err := m.k.DestroyPool(ctx, msg.PoolId, creator); err != nil", "msgServer.AdjustPool: creator, err := sdk.AccAddressFromBech32(msg.Creator); err != nil", "msgServer.AdjustPool: err = m.k.AdjustPool( ctx, msg.PoolId, msg.AdditionalReward, msg.RewardPerBlock, creator, ); err != nil", "msgServer.Stake: sender, err := sdk.AccAddressFromBech32(msg.Sender); err != nil", "msgServer.Stake: reward, err := m.k.Stake(ctx, msg.PoolId, msg.Amount, sender); err != nil", "msgServer.Unstake: sender, err := sdk.AccAddressFromBech32(msg.Sender); err != nil", "msgServer.Unstake: reward, err := m.k.Unstake(ctx, msg.PoolId, msg.Amount, sender); err != nil", "msgServer.Harvest: sender, err := sdk.AccAddressFromBech32(msg.Sender); err != nil", "msgServer.Harvest: reward, err := m.k.Harvest(ctx, msg.PoolId, sender); err != nil"]
+
 end Irismod.Gen.PureFarm
